@@ -53,7 +53,8 @@ UNITS = {
     "c19": {"kind": "exe", "src": ["units/c19_constants.cpp"]},
     "c20": {"kind": "exe", "src": ["units/c20_geometry.cpp"]},
     "c15": {"kind": "exe", "src": ["units/c15_cpuid_dispatch.cpp"]},
-    "c18": {"kind": "exe", "src": ["units/c18_allocator.cpp"]},
+    "c18": {"kind": "exe", "src": ["units/c18_allocator.cpp"],
+            "flags": ["-Wl,--wrap=posix_memalign,--wrap=malloc,--wrap=calloc,--wrap=aligned_alloc,--wrap=memalign,--wrap=free"]},  # heap-conservation monitor
     "math": {"kind": "so", "src": ["math/unit_math.cpp"], "runner": "math_runner",
              "aux": {"math_runner": {"src": "math/math_runner.cpp", "obj": False, "flags": ["-ffp-contract=off"], "libs": ["-ldl", "-lquadmath", "-lpthread"]}}},
     "c16": {"kind": "exe", "src": ["units/c16_complex.cpp"]},
@@ -339,7 +340,7 @@ PROPS = {
         "level_note": "Heap corruption and leaks are only visible to the ASan/LSan and valgrind jobs of the thorough tier; the quick tier sees them only through content checks.",
         "design_ref": "DESIGN.md section 6 C18",
         "jobs": [
-            {"unit": "c18", "archs": ["sse2", "avx2", "avx512f"]},
+            {"unit": "c18", "archs": ["sse2", "avx2", "avx512f", "emu128", "emu256"]},
             {"unit": "c18", "variant": "asan", "archs": ["sse2", "avx512f"], "tiers": ["thorough"],
              "env": {"ASAN_OPTIONS": "detect_leaks=1:allocator_may_return_null=1:max_allocation_size_mb=4096", "UBSAN_OPTIONS": "print_stacktrace=0"}},
             {"unit": "c18", "variant": "asan-clang", "archs": ["avx2"], "tiers": ["thorough"],
